@@ -17,8 +17,10 @@ RULE = (
     "answered/cancelled requests, or >= 2 drops, or >= 2 consecutive connect failures; distinct = distinct trace."
     ' Retry policies ask for up to 40 s between attempts (lin/exp/const with bases up to 40), so caps and resets of the failure count are visible.'
     ' A connection attempt may fail before connect() returns (op syncref): it counts as a failed attempt made at that instant, the next one is due one retry-policy delay later, close() during that back-off cancels it.'
+    ' close() is also called with owner errbacks that cancel a sibling request while it is failing them (either ClientError or CancelledError is right for the sibling; close() itself must not raise).'
 )
 ASSUMPTIONS = [
+    "an exception that escapes the broker client's dataReceived / connectionLost / timer callbacks into the (simulated) reactor counts as a violation: a reactor logs it and the rest of that event's handling is lost; none occurs on the unchanged tree",
     "writes and connection attempts are expected in the same step as their trigger (the broker client performs them synchronously)",
 ]
 
